@@ -121,14 +121,16 @@ func (w *Writer) initEmpty() error {
 }
 
 func (w *Writer) recoverTail() error {
-	// We need to track the last two commit frames
+	// We need to track all the commit frames we find. The final one(s) might be
+	// left over from a torn write so we need to be able to fall back to earlier
+	// ones.
 	type commitInfo struct {
 		fh         frameHeader
 		offset     int64
 		crcStart   int64
 		offsetsLen int
 	}
-	var prevCommit, finalCommit *commitInfo
+	var commits []commitInfo
 
 	offsets := make([]uint32, 0, 32*1024)
 
@@ -146,16 +148,16 @@ func (w *Writer) recoverTail() error {
 
 		case FrameCommit:
 			// The payload is not the length field in this case!
-			prevCommit = finalCommit
-			finalCommit = &commitInfo{
+			ci := commitInfo{
 				fh:         fh,
 				offset:     offset,
 				crcStart:   0,            // First commit includes the file header
 				offsetsLen: len(offsets), // Track how many entries were found up to this commit point.
 			}
-			if prevCommit != nil {
-				finalCommit.crcStart = prevCommit.offset + frameHeaderLen
+			if len(commits) > 0 {
+				ci.crcStart = commits[len(commits)-1].offset + frameHeaderLen
 			}
+			commits = append(commits, ci)
 		}
 		return true, nil
 	})
@@ -163,85 +165,51 @@ func (w *Writer) recoverTail() error {
 		return err
 	}
 
-	if finalCommit == nil {
-		// There were no commit frames found at all. This segment file is
-		// effectively empty. Init it that way ready for appending. This overwrites
-		// the file header so it doesn't matter if it was valid or not.
-		return w.initEmpty()
-	}
+	// Find the last commit frame whose checksum matches the data written since
+	// the commit before it. Every commit that was ever acknowledged passes this
+	// check (we assume committed data is not corrupted later) so anything after
+	// it is either an incomplete write that was never acknowledged, or stale
+	// bytes left behind by one. Note that we can't trust a commit frame just
+	// because it is followed by further frames or by another commit frame: the
+	// file may contain the remains of several torn writes on top of each other.
+	for i := len(commits) - 1; i >= 0; i-- {
+		ci := commits[i]
 
-	// Assume that the final commit is good for now and set the writer state
-	w.writer.writeOffset = uint32(finalCommit.offset + frameHeaderLen)
+		// We know this can't be bigger than the whole segment file because none of
+		// the values were read from the data just from the offsets we moved
+		// through.
+		batchBuf := make([]byte, ci.offset-ci.crcStart)
+		if _, err := w.wf.ReadAt(batchBuf, ci.crcStart); err != nil {
+			return fmt.Errorf("failed to read committed batch for CRC validation: %w", err)
+		}
+		if crc32.Checksum(batchBuf, castagnoliTable) != ci.fh.crc {
+			// Incomplete or stale, try the one before.
+			continue
+		}
 
-	// Just store what we have for now to ensure the defer doesn't panic we'll
-	// probably update this below.
-	w.offsets.Store(offsets)
-
-	// Whichever path we take, fix up the commitIdx before we leave
-	defer func() {
+		// This commit is good, continue appending after it.
+		w.writer.writeOffset = uint32(ci.offset + frameHeaderLen)
+		offsets = offsets[:ci.offsetsLen]
+		w.offsets.Store(offsets)
+		if len(offsets) > 0 {
+			// Non atomic is OK because this file is not visible to any other threads
+			// yet.
+			w.commitIdx = w.info.BaseIndex + uint64(len(offsets)) - 1
+		}
 		// An index frame that is not covered by the commit we recovered to was
 		// part of a torn (uncommitted) write so this segment is not sealed.
 		if w.writer.indexStart >= uint64(w.writer.writeOffset) {
 			w.writer.indexStart = 0
 		}
-		ofs := w.getOffsets()
-		if len(ofs) > 0 {
-			// Non atomic is OK because this file is not visible to any other threads
-			// yet.
-			w.commitIdx = w.info.BaseIndex + uint64(len(ofs)) - 1
-		}
-	}()
-
-	if finalCommit.offsetsLen < len(offsets) {
-		// Some entries were found after the last commit. Those must be a partial
-		// write that was uncommitted so can be ignored. But the fact they were
-		// written at all means that the last commit frame must have been completed
-		// and acknowledged so we don't need to verify anything. Just truncate the
-		// extra entries from index and reset the write cursor to continue appending
-		// after the last commit.
-		offsets = offsets[:finalCommit.offsetsLen]
-		w.offsets.Store(offsets)
 
 		// Since at least one commit was found, the header better be valid!
 		return validateFileHeader(*readInfo, w.info)
 	}
 
-	// Last frame was a commit frame! Let's check that all the data written in
-	// that commit frame made it to disk.
-	// Verify the length first
-	bufLen := finalCommit.offset - finalCommit.crcStart
-	// We know bufLen can't be bigger than the whole segment file because none of
-	// the values above were read from the data just from the offsets we moved
-	// through.
-	batchBuf := make([]byte, bufLen)
-
-	if _, err := w.wf.ReadAt(batchBuf, finalCommit.crcStart); err != nil {
-		return fmt.Errorf("failed to read last committed batch for CRC validation: %w", err)
-	}
-
-	gotCrc := crc32.Checksum(batchBuf, castagnoliTable)
-	if gotCrc == finalCommit.fh.crc {
-		// All is good. We already setup the state we need for writer other than
-		// offsets.
-		w.offsets.Store(offsets)
-
-		// Since at least one commit was found, the header better be valid!
-		return validateFileHeader(*readInfo, w.info)
-	}
-
-	// Last commit was incomplete rewind back to the previous one or start of file
-	if prevCommit == nil {
-		// Init wil re-write the file header so it doesn't matter if it was corrupt
-		// or not!
-		return w.initEmpty()
-	}
-
-	w.writer.writeOffset = uint32(prevCommit.offset + frameHeaderLen)
-	offsets = offsets[:prevCommit.offsetsLen]
-	w.offsets.Store(offsets)
-
-	// Since at least one commit was found, the header better be valid!
-	return validateFileHeader(*readInfo, w.info)
+	// There were no (complete) commit frames found at all. This segment file is
+	// effectively empty. Init it that way ready for appending. This overwrites
+	// the file header so it doesn't matter if it was valid or not.
+	return w.initEmpty()
 }
 
 // Close implements io.Closer
